@@ -227,7 +227,7 @@ class World:
     def __init__(self, case):
         B = seams.WORLD.B
         self.case = case
-        self.classes = [type(f"T{k}", (), {}) for k in range(len(case["fakes"]))]
+        self.classes = [type("Tensor", (), {"__module__": case["fakes"][k]["mod"]}) for k in range(len(case["fakes"]))]  # same __name__, different classes
         self.U = type("U", (), {})
         self.eager = {}
         for k, f in enumerate(case["fakes"]):
@@ -344,7 +344,7 @@ def clone_state(st):
 
 def state_key(st, imported):
     return (tuple(b.name for b in st.use_stack), tuple(sorted(st.name_to_backend)), tuple(sorted((m, tuple(n for n, _ in l)) for m, l in st.uninitialized_backends.items() if m.startswith("fw_"))),
-            tuple(sorted((tuple(t.__name__ for t in k), v.name) for k, v in st.tensortypes_to_backend.items())), tuple(sorted(m for m in st.seen_module_names if m.startswith("fw_"))),
+            tuple(sorted((tuple(f"{t.__module__}.{t.__name__}" for t in k), v.name) for k, v in st.tensortypes_to_backend.items())), tuple(sorted(m for m in st.seen_module_names if m.startswith("fw_"))),
             tuple(sorted(imported)))
 
 
